@@ -37,7 +37,7 @@ func hashCheckers(p *core.Prog) []*ssa.Function {
 func c13(c *Ctx) {
 	p, r := c.P, c.R
 	r.Technique = "must-pass-through (cut) checks of the hash-link gate chain inside the proof walker (per loop iteration) and of the final gates in the node/bytecode validators; provenance of the root (oracle header for the content's block hash) and of what reaches the store; structural check that each traversal case consumes the nibbles it compared"
-	r.Explanation = "Decides: (R1) the hash comparer returns nil only under bytes.Equal(node hash, expected); the proof walker succeeds only for a non-empty proof whose first node passed the comparer against the root argument, and in every loop iteration the carried node is replaced by the next proof element only after decoding the carried node, traversing it with the carried remaining path and the comparer succeeding on (next element, reference returned by that traversal); the carried path becomes exactly the traversal's remainder; (R2) the trie-node validator returns nil only under len(remaining) == 0 and the comparer succeeding on (last node, key's node hash), with the walker applied to (root, key path, content proof); the bytecode validator only under account code hash == key code hash for the account proven by the walker under the key's address hash; every root argument derives from the oracle's header for the content's own block hash (header binding is C02.R3) and the storage-trie root from the proven account; oracle and decode errors stop validation; unknown selectors fail; (R3) the state store writes only the last proof element (re-hashed and compared with the key's node hash) or the code (hashed and compared with the key's code hash), nothing else from the proof; (R4) traversal: the branch case indexes with path[0] and continues with path[1:], the extension case compares every key nibble with the path and continues with path[len(key):], the leaf case requires the remaining path to equal the key prefix. Not decided: soundness over all tries; panics on malformed nodes are C01's."
+	r.Explanation = "Decides: (R1) the hash comparer returns nil only under bytes.Equal(node hash, expected); the proof walker succeeds only for a non-empty proof whose first node passed the comparer against the root argument, and in every loop iteration the carried node is replaced by the next proof element only after decoding the carried node, traversing it with the carried remaining path and the comparer succeeding on (next element, reference returned by that traversal); the carried path becomes exactly the traversal's remainder; the walk succeeds only after the loop ran out of proof elements (no early exit to a success return, so surplus nodes are decoded and linked too); (R2) the trie-node validator returns nil only under len(remaining) == 0 and the comparer succeeding on (last node, key's node hash), with the walker applied to (root, key path, content proof); the bytecode validator only under account code hash == key code hash for the account proven by the walker under the key's address hash; every root argument derives from the oracle's header for the content's own block hash (header binding is C02.R3) and the storage-trie root from the proven account; oracle and decode errors stop validation; unknown selectors fail; (R3) the state store writes only the last proof element (re-hashed and compared with the key's node hash) or the code (hashed and compared with the key's code hash), nothing else from the proof; (R4) traversal: the branch case indexes with path[0] and continues with path[1:], the extension case compares every key nibble with the path and continues with path[len(key):], the leaf case requires the remaining path to equal the key prefix. Not decided: soundness over all tries; panics on malformed nodes are C01's."
 	r.Assumptions = []string{"keccak256 collision resistance", "trie node decoding (go-ethereum derived) is faithful"}
 	r.Floor("R1.hash-link", 8)
 	r.Floor("R2.final-gates", 9)
@@ -47,8 +47,17 @@ func c13(c *Ctx) {
 	sp := p.SSAPkg("state")
 	checkers := hashCheckers(p)
 	if len(checkers) == 0 {
-		r.Fail("R1.hash-link", "hash comparer", "-", "anchor-unresolved")
-		return
+		// the comparison may be written out where it is needed (bytes.Equal(node.NodeHash()[:], want))
+		n := 0
+		for _, fn := range p.ModuleFuncs() {
+			if fn.Pkg == sp {
+				n += len(hashLinksIn(fn, nil))
+			}
+		}
+		if n == 0 {
+			r.Fail("R1.hash-link", "hash comparer", "-", "anchor-unresolved")
+			return
+		}
 	}
 	for _, h := range checkers {
 		g := bytesEqualFact(func(v ssa.Value) bool {
@@ -105,12 +114,9 @@ func c13(c *Ctx) {
 	}
 	// first node vs root
 	{
-		g := core.ErrNilGate("first", func(c2 *ssa.Call) bool {
-			if !isChecker(c2) {
-				return false
-			}
-			a := c2.Call.Args
-			first := core.Derives(a[0], func(v ssa.Value) bool {
+		var gates []func(fs []core.Fact) bool
+		for _, l := range hashLinksIn(W, checkers) {
+			first := core.Derives(l.node, func(v ssa.Value) bool {
 				ia, ok := v.(*ssa.IndexAddr)
 				if !ok {
 					return false
@@ -118,13 +124,28 @@ func c13(c *Ctx) {
 				k, isC := core.ConstInt(ia.Index)
 				return isC && k == 0 && derivesFromParam(ia.X, proofP)
 			}, core.DeriveOpts{})
-			return first && derivesFromParam(a[1], rootP)
-		})
-		w := core.CutReach(core.CutSpec{Fn: W, Cut: func(b *ssa.BasicBlock, i int) bool { return g.Edge(core.EdgeFacts(b, i)) }, Target: core.SuccessTarget(W, nil)})
+			if first && derivesFromParam(l.hash, rootP) {
+				gates = append(gates, l.gate)
+			}
+		}
+		w := core.CutReach(core.CutSpec{Fn: W, Cut: func(b *ssa.BasicBlock, i int) bool {
+			for _, g := range gates {
+				if g(core.EdgeFacts(b, i)) {
+					return true
+				}
+			}
+			return false
+		}, Target: core.SuccessTarget(W, nil)})
 		r.Check(w == nil, "R1.hash-link", wn+" first-node-is-root", p.Pos(W.Pos()), "succeeds only if the first node hashes to the root argument", "a proof that does not start at the given root can be accepted: "+p.PathString(w))
 	}
 	// per-iteration chain
 	var trav, dec, chk *ssa.Call
+	var chkLink *hashLink
+	for _, l := range hashLinksIn(W, checkers) {
+		if l := l; core.InLoop(l.at.Block()) {
+			chk, chkLink = l.at, &l
+		}
+	}
 	core.Calls(W, func(ci ssa.CallInstruction) {
 		call, ok := ci.(*ssa.Call)
 		if !ok || !core.InLoop(call.Block()) {
@@ -136,8 +157,6 @@ func c13(c *Ctx) {
 			trav = call
 		case strings.HasSuffix(id, "trie.DecodeTrieNode"):
 			dec = call
-		case isChecker(call):
-			chk = call
 		}
 	})
 	if trav == nil || dec == nil || chk == nil {
@@ -160,6 +179,9 @@ func c13(c *Ctx) {
 				call *ssa.Call
 			}{{"decode-ok", dec}, {"traverse-ok", trav}, {"link-ok", chk}} {
 				g := core.ErrNilGate(gc.key, func(c2 *ssa.Call) bool { return c2 == gc.call })
+				if gc.call == chk {
+					g.Edge = chkLink.gate
+				}
 				// from the loop header, reaching the header again (next iteration) or a success exit requires the gate
 				w := core.CutReach(core.CutSpec{Fn: W, From: header,
 					Cut: func(b *ssa.BasicBlock, i int) bool { return g.Edge(core.EdgeFacts(b, i)) },
@@ -178,7 +200,7 @@ func c13(c *Ctx) {
 			// operands
 			okTrav := core.ResultOf(trav.Call.Args[0], dec, 0)
 			r.Check(okTrav, "R1.hash-link", wn+" traverses-decoded", p.Pos(trav.Pos()), "the node traversed is the decoded carried node", "the node traversed is not the one just decoded")
-			a := chk.Call.Args
+			a := []ssa.Value{chkLink.node, chkLink.hash}
 			okLink := core.ResultOf(a[1], trav, 0)
 			var nextEl ssa.Value
 			core.Derives(a[0], func(v ssa.Value) bool {
@@ -289,6 +311,37 @@ func c13(c *Ctx) {
 				}
 			}
 			r.Check(okRange, "R1.hash-link", wn+" walks-all-following", p.Pos(W.Pos()), "iterates over every element after the first", "the walk does not cover every proof element after the first")
+			// ... and success is reached only when the loop ran out of elements: an edge that leaves
+			// the loop from inside its body (break) must not lead to a success exit, or the nodes
+			// after that point are neither decoded nor linked (surplus nodes accepted)
+			{
+				inLoop := map[*ssa.BasicBlock]bool{}
+				for _, b := range W.Blocks {
+					if b == header || (reaches(header, b) && reaches(b, header) && core.InLoop(b)) {
+						inLoop[b] = true
+					}
+				}
+				var wEarly []*ssa.BasicBlock
+				for b := range inLoop {
+					if b == header {
+						continue
+					}
+					for _, sblk := range b.Succs {
+						if inLoop[sblk] {
+							continue
+						}
+						st := core.SuccessTarget(W, nil)
+						if st(b, sblk) {
+							wEarly = []*ssa.BasicBlock{b, sblk}
+							continue
+						}
+						if w := core.CutReach(core.CutSpec{Fn: W, From: sblk, NoEnter: func(x *ssa.BasicBlock) bool { return inLoop[x] }, Target: st}); w != nil {
+							wEarly = append([]*ssa.BasicBlock{b}, w...)
+						}
+					}
+				}
+				r.Check(wEarly == nil, "R1.hash-link", wn+" no-early-success", p.Pos(W.Pos()), "the walk succeeds only after the loop ran out of proof elements", "the walk can leave the loop early and succeed: the proof elements after that point are neither decoded nor linked, so a proof with surplus nodes is accepted: "+p.PathString(wEarly))
+			}
 		}
 	}
 
@@ -436,21 +489,37 @@ func c13(c *Ctx) {
 		})
 		w := core.CutReach(core.CutSpec{Fn: fn, Cut: func(b *ssa.BasicBlock, i int) bool { return empty(core.EdgeFacts(b, i)) }, Target: core.SuccessTarget(fn, nil)})
 		r.Check(w == nil, "R2.final-gates", name+" path-fully-consumed", p.Pos(fn.Pos()), "nil only under len(remaining path) == 0", "a node can be accepted although the key's path was not fully consumed: "+p.PathString(w))
-		g := core.ErrNilGate("final", func(c2 *ssa.Call) bool {
-			if !isChecker(c2) {
-				return false
-			}
-			a := c2.Call.Args
-			okNode := core.Derives(a[0], func(v ssa.Value) bool { return core.ResultOf(v, wc, 0) }, core.DeriveOpts{}) || storedResult(a[0], wc, 0)
+		finalOK := func(node, hash ssa.Value) bool {
+			okNode := core.Derives(node, func(v ssa.Value) bool { return core.ResultOf(v, wc, 0) }, core.DeriveOpts{}) || storedResult(node, wc, 0)
 			okHash := false
 			for _, pa := range fn.Params {
-				if derivesFromParam(a[1], pa) && strings.Contains(strings.ToLower(pa.Name()), "hash") && pa != fn.Params[0] {
+				if derivesFromParam(hash, pa) && strings.Contains(strings.ToLower(pa.Name()), "hash") && pa != fn.Params[0] {
 					okHash = true
 				}
 			}
 			return okNode && okHash
+		}
+		g := core.ErrNilGate("final", func(c2 *ssa.Call) bool {
+			if !isChecker(c2) {
+				return false
+			}
+			return finalOK(c2.Call.Args[0], c2.Call.Args[1])
 		})
-		w2 := core.CutReach(core.CutSpec{Fn: fn, Cut: func(b *ssa.BasicBlock, i int) bool { return g.Edge(core.EdgeFacts(b, i)) }, Target: core.SuccessTarget(fn, g.ErrOK)})
+		var written []func(fs []core.Fact) bool
+		for _, l := range hashLinksIn(fn, nil) {
+			if finalOK(l.node, l.hash) {
+				written = append(written, l.gate)
+			}
+		}
+		w2 := core.CutReach(core.CutSpec{Fn: fn, Cut: func(b *ssa.BasicBlock, i int) bool {
+			fs := core.EdgeFacts(b, i)
+			for _, wg := range written {
+				if wg(fs) {
+					return true
+				}
+			}
+			return g.Edge(fs)
+		}, Target: core.SuccessTarget(fn, g.ErrOK)})
 		r.Check(w2 == nil, "R2.final-gates", name+" final-node-is-key-hash", p.Pos(fn.Pos()), "nil only if the last node hashes to the key's node hash", "a node other than the one named by the key can be accepted: "+p.PathString(w2))
 		// walker operands
 		wa := wc.Call.Args
@@ -857,4 +926,49 @@ func keccakOperand(v ssa.Value) (ssa.Value, bool) {
 		}
 	}
 	return arg, true
+}
+
+// hashLink is one place where a node is required to hash to an expected value: a call of a hash
+// comparer (gate: its error is nil), or the comparison written out as
+// bytes.Equal(node.NodeHash()[:], want) (gate: the call is true).
+type hashLink struct {
+	at         *ssa.Call
+	node, hash ssa.Value
+	gate       func(fs []core.Fact) bool
+}
+
+func hashLinksIn(fn *ssa.Function, checkers []*ssa.Function) []hashLink {
+	var out []hashLink
+	core.Calls(fn, func(ci ssa.CallInstruction) {
+		call, ok := ci.(*ssa.Call)
+		if !ok {
+			return
+		}
+		if f := core.StaticCalleeFn(call); f != nil && containsFn(checkers, f) && len(call.Call.Args) == 2 {
+			g := core.ErrNilGate("link", func(c2 *ssa.Call) bool { return c2 == call })
+			out = append(out, hashLink{at: call, node: call.Call.Args[0], hash: call.Call.Args[1], gate: g.Edge})
+			return
+		}
+		if core.CalleeID(call) != "bytes.Equal" {
+			return
+		}
+		for i := 0; i < 2; i++ {
+			var recv ssa.Value
+			core.Derives(call.Call.Args[i], func(x ssa.Value) bool {
+				if cc, ok := x.(*ssa.Call); ok && strings.HasSuffix(core.CalleeID(cc), ").NodeHash") {
+					recv = cc.Call.Args[0]
+					return true
+				}
+				return false
+			}, core.DeriveOpts{})
+			if recv == nil {
+				continue
+			}
+			out = append(out, hashLink{at: call, node: recv, hash: call.Call.Args[1-i], gate: core.AnyFact(func(f core.Fact) bool {
+				return f.Op == token.ILLEGAL && f.Truth && f.V == ssa.Value(call)
+			})})
+			break
+		}
+	})
+	return out
 }
